@@ -53,7 +53,7 @@ def run(repo, res):
     res.extra['e1_shape_paths_interpreted'] = _np
     seen = set()
     n = 0
-    for r in R.block_records(repo):
+    for r in R.block_records(repo, pairs=True):
         k = (R.method_name(repo, r['cls']), r['a'], r['b'])
         n += 1
         phantom = r['supp_may'] and not r['ref_may']
@@ -77,9 +77,9 @@ def run(repo, res):
             if (k, 'dom', wrong) not in seen:
                 seen.add((k, 'dom', wrong))
                 res.check('C03-R1', '%s %s -> %s undefinedness' % k, not wrong, r['line'][0], r['line'][1],
-                          'a name bound only in %s.%s: Python %s reach %s.%s without passing the binding, supp '
+                          'a name bound %s %s.%s: Python %s reach %s.%s without passing the binding, supp '
                           'says it %s -> "possibly undefined" is %s'
-                          % (r['cls'], r['a'], 'cannot' if r['ref_dom'] else 'can', r['cls'], r['b'],
+                          % ('in each of the two blocks' if r.get('pair') else 'only in', r['cls'], r['a'], 'cannot' if r['ref_dom'] else 'can', r['cls'], r['b'],
                              'cannot' if r['supp_dom'] else 'can',
                              'missing' if r['supp_dom'] else 'spurious'),
                           sample='%s: %s %s every route to %s' % (r['cls'], r['a'],
